@@ -1,8 +1,43 @@
 (* C06 — Handler dispatch is exactly-once, ordered and correctly routed.
    Only statements here; proofs live in Proofs/. *)
-Require Import Bytes AMap Dispatch DispatchTableProofs.
+From Coq Require Import Permutation.
+Require Import Bytes AMap Dispatch DispatchSpec DispatchTableProofs.
+
+(* ---- the handler table (sequential) ---------------------------------------------- *)
 
 Theorem C06_register_case_insensitive : forall t internal bg c1 c2 u v,
   go_upper c1 = go_upper c2 -> register t internal bg c1 u v = register t internal bg c2 u v.
 Proof. exact register_case_insensitive. Qed.
 Print Assumptions C06_register_case_insensitive.
+
+(* Every registration history keeps the table in step with the registry of the
+   statement (Rel), and Remove returns what the statement says.  Hypotheses: fresh uids
+   never repeat, contain no ':' and are not empty (uid_ok); command tokens of
+   registrations contain no ':' and are not empty (cmd_ok, inside tops_ok / top_ok). *)
+Theorem C06_table_refines : forall (uid_of : N -> str) (decl : N -> hdecl),
+  uid_ok uid_of ->
+  forall ops, tops_ok uid_of decl [] ops ->
+  Rel uid_of decl (run_tops uid_of decl empty_table ops) (sp_run decl [] ops).
+Proof. exact table_refines. Qed.
+Print Assumptions C06_table_refines.
+
+Theorem C06_table_step : forall (uid_of : N -> str) (decl : N -> hdecl),
+  uid_ok uid_of ->
+  forall t reg o, Rel uid_of decl t reg -> top_ok uid_of decl reg o ->
+  Rel uid_of decl (fst (apply_top uid_of decl t o)) (fst (sp_apply decl reg o)) /\
+  snd (apply_top uid_of decl t o) = snd (sp_apply decl reg o).
+Proof. exact table_step. Qed.
+Print Assumptions C06_table_step.
+
+(* One RunHandlers call on a table in step with the registry runs exactly the handlers
+   registered for the event's command (as upper-cased at registration) or for "*", the
+   command groups only when the event is not an echo; no handler twice.  Hypothesis:
+   the received command is not "*". *)
+Theorem C06_dispatch_exact : forall (uid_of : N -> str) (decl : N -> hdecl),
+  uid_ok uid_of ->
+  forall t reg e, Rel uid_of decl t reg -> ev_cmd e <> star ->
+  NoDup (dispatch_ids t e) /\
+  (forall h, In h (dispatch_ids t e) <-> In h reg /\ routed decl h e = true) /\
+  Permutation (dispatch_ids t e) (sp_targets decl reg e).
+Proof. exact table_dispatch. Qed.
+Print Assumptions C06_dispatch_exact.
